@@ -161,6 +161,20 @@ func c08CorpusFiles() ([]string, error) {
 var c08Pinned = []string{"(a,,)=>b", "(,,,)=>", "/* x", "a = 42 /* start of block\n\n", "a /* x\x00 */ b", "\n\n@", "(x) {1", `"abc`, ")=>x", "func(a){",
 	"a:]=>x", "func(,){}", "return;", "//c\x00b", "if a {} else if", "x=>", "{a:1,}", "a.\n", "[1,", "..++"}
 
+// every pair of infix operators in parent / child position on either side, the inner expression starting with every prefix
+// operator (the printer decides about parentheses from the operators' tokens, which prefix and infix forms share)
+func init() {
+	ops := []string{"+", "-", "*", "/", "%", "<<", ">>", "&", "|", "^", "==", "!=", "<", "<=", ">", ">=", "&&", "||", ":", "=", "=>"}
+	for _, o1 := range ops {
+		for _, o2 := range ops {
+			for _, pre := range []string{"", "-", "+", "!", "^", "~", "++", "--"} {
+				c08Pinned = append(c08Pinned, "a "+o1+" ("+pre+"b "+o2+" c)", "("+pre+"a "+o1+" b) "+o2+" c", "a "+o1+" "+pre+"b "+o2+" c", pre+"(a "+o1+" b) "+o2+" c",
+					"f(a "+o1+" ("+pre+"b "+o2+" c))", "[a "+o1+" ("+pre+"b "+o2+" (c "+o1+" d))]")
+			}
+		}
+	}
+}
+
 func countLines(path string) (int, error) {
 	f, err := os.Open(path)
 	if err != nil {
